@@ -43,10 +43,28 @@ const d9Key = "C16:trigger-registered-before-sync-start"
 // DefSpec is a trigger definition by labels: logs of contract A, optionally with topic0 = T,
 // optionally with first data word >= Gte.  Bad > 0: bytes that are not a valid definition.
 type DefSpec struct {
-	A   uint8 `json:"a"`
-	T   int   `json:"t"`   // -1: any
-	Gte int64 `json:"gte"` // -1: none
-	Bad int   `json:"bad,omitempty"`
+	A     uint8      `json:"a"`
+	T     int        `json:"t"`   // -1: any
+	Gte   int64      `json:"gte"` // -1: none
+	Preds []PredSpec `json:"preds,omitempty"`
+	Bad   int        `json:"bad,omitempty"`
+}
+
+// PredSpec is an unsigned-integer predicate on one word of the log: Ref 0..3 is the topic with that
+// index, Ref >= 4 the static data word Ref-4; Op is lt | lte | eq | gt | gte; Arg is decimal
+// (any size).
+type PredSpec struct {
+	Ref int    `json:"ref"`
+	Op  string `json:"op"`
+	Arg string `json:"arg"`
+}
+
+func bigOf(dec string) *big.Int {
+	n, ok := new(big.Int).SetString(dec, 10)
+	if !ok {
+		panic("bad number " + dec)
+	}
+	return n
 }
 
 type Op struct {
@@ -93,15 +111,66 @@ func defBytes(d DefSpec) []byte {
 			ValuePredicate: shutterservice.ValuePredicate{Op: shutterservice.UintGte, IntArgs: []*big.Int{big.NewInt(d.Gte)}},
 		})
 	}
+	for _, p := range d.Preds {
+		op := map[string]shutterservice.Op{"lt": shutterservice.UintLt, "lte": shutterservice.UintLte, "eq": shutterservice.UintEq,
+			"gt": shutterservice.UintGt, "gte": shutterservice.UintGte}[p.Op]
+		td.LogPredicates = append(td.LogPredicates, shutterservice.LogPredicate{
+			LogValueRef:    shutterservice.LogValueRef{Offset: uint64(p.Ref)},
+			ValuePredicate: shutterservice.ValuePredicate{Op: op, IntArgs: []*big.Int{bigOf(p.Arg)}},
+		})
+	}
 	return td.MarshalBytes()
 }
 
-// the generator's own notion of matching
+// The reference for "this log matches this definition", written from the definition's meaning and
+// not from eventtrigger.go: the log is emitted by the definition's contract; a topic-0 constraint
+// is equality of the whole word; every unsigned-integer predicate compares the FULL 32-byte word
+// (topic with the given index, or static data word, zero-extended where the log has no such word)
+// as an unbounded big-endian integer with the argument.
 func labelMatch(d DefSpec, l *syncrig.Lg) bool {
-	if d.Bad != 0 {
+	if d.Bad != 0 || l.A != d.A {
 		return false
 	}
-	return l.A == d.A && (d.T < 0 || int(l.T) == d.T) && (d.Gte < 0 || (l.V <= math.MaxInt64 && int64(l.V) >= d.Gte))
+	topics, data := l.TopicWords(), l.DataWords()
+	if d.T >= 0 && topics[0] != syncrig.Topic(uint8(d.T)) {
+		return false
+	}
+	word := func(ref int) *big.Int {
+		var w [32]byte
+		if ref < 4 {
+			if ref < len(topics) {
+				w = topics[ref]
+			}
+		} else if ref-4 < len(data) {
+			w = data[ref-4]
+		}
+		return new(big.Int).SetBytes(w[:])
+	}
+	holds := func(op string, v, arg *big.Int) bool {
+		c := v.Cmp(arg)
+		switch op {
+		case "lt":
+			return c < 0
+		case "lte":
+			return c <= 0
+		case "eq":
+			return c == 0
+		case "gt":
+			return c > 0
+		case "gte":
+			return c >= 0
+		}
+		panic("unknown op " + op)
+	}
+	if d.Gte >= 0 && !holds("gte", word(4), big.NewInt(d.Gte)) {
+		return false
+	}
+	for _, p := range d.Preds {
+		if !holds(p.Op, word(p.Ref), bigOf(p.Arg)) {
+			return false
+		}
+	}
+	return true
 }
 
 // ---------------------------------------------------------------------------------------
@@ -277,6 +346,7 @@ func (w *world) runScenario(sc *Scenario) {
 		rangeOf := map[int]int{} // block id -> serial number of the range it was last synced in
 		rangeSerial := 0
 		knownMissed := map[string]bool{}
+		verdictReported := map[string]bool{}
 		regsReported := false
 		hasDec := false
 		var lastHead *ethfake.Block
@@ -434,8 +504,14 @@ func (w *world) runScenario(sc *Scenario) {
 								m, merr := tdefs[di].Match(&lg)
 								real = merr == nil && m
 							}
-							if real != labelMatch(sc.Defs[di], it.Lg) {
-								run.Tie(fmt.Sprintf("definition %d and log %+v: label match=%v, ToFilterQuery+Match say %v", di, *it.Lg, !real, real))
+							if ref := labelMatch(sc.Defs[di], it.Lg); real != ref && !verdictReported[fmt.Sprint(di, "/", lid)] {
+								verdictReported[fmt.Sprint(di, "/", lid)] = true
+								run.Violate(vh.Violation{Key: "C16:match-verdict-differs-from-reference",
+									What:     "the implementation's verdict (ToFilterQuery + Match) on a log differs from the definition's meaning (full-word unsigned comparison / word equality)",
+									Case:     trunc(oi),
+									Observed: map[string]any{"definition": sc.Defs[di], "log": it.Lg, "implementation_says": real},
+									Expected: map[string]any{"matches": ref}})
+								fin.clean = false
 							}
 							if real {
 								mt[di] = append(mt[di], vh.CN(lid))
@@ -728,7 +804,27 @@ func (g *gen) addBlock(parent int, salt uint64, pending *[]syncrig.Item) int {
 	n := r.Intn(4)
 	for i := 0; i < n; i++ {
 		if r.Chance(1, 2) {
-			add(syncrig.Item{Lg: &syncrig.Lg{A: uint8(1 + r.Intn(2)), T: uint8(r.Intn(3)), V: uint64(r.Intn(10))}})
+			lg := &syncrig.Lg{A: uint8(1 + r.Intn(2)), T: uint8(r.Intn(3)), V: uint64(r.Intn(10))}
+			if r.Chance(1, 3) { // a log of contract 3 with full-size words around the predicates' arguments
+				lg.A = 3
+				var args []string
+				for _, d := range g.sc.Defs {
+					for _, p := range d.Preds {
+						args = append(args, p.Arg)
+					}
+				}
+				if len(args) > 0 && r.Chance(2, 3) {
+					lg.W = wordNear(r, args[r.Intn(len(args))])
+				} else {
+					lg.W = vh.Pick(r, bigWords...)
+				}
+				if len(args) > 0 && r.Chance(1, 2) {
+					lg.T1 = wordNear(r, args[r.Intn(len(args))])
+				} else if r.Chance(1, 2) {
+					lg.T1 = vh.Pick(r, bigWords...)
+				}
+			}
+			add(syncrig.Item{Lg: lg})
 			continue
 		}
 		g.fresh++
@@ -777,9 +873,34 @@ func (g *gen) addBlock(parent int, salt uint64, pending *[]syncrig.Item) int {
 	return id
 }
 
+// boundary families for unsigned predicates: arguments below, at and above 2^64, words whose high
+// 192 bits are non-zero
+var (
+	two64    = new(big.Int).Lsh(big.NewInt(1), 64)
+	bigArgs  = []string{"5", "2000000000000000000", "10000000000000000000", "18446744073709551615", "18446744073709551616", "18446744073709551617", "30000000000000000000", "340282366920938463463374607431768211456"}
+	bigWords = []string{"4", "5", "6", "18446744073709551615", "18446744073709551616", "18446744073709551617", "20000000000000000000",
+		"115792089237316195423570985008687907853269984665640564039457584007913129639935"}
+)
+
+func wordNear(r *vh.RNG, arg string) string {
+	// arg + k*2^64 + {-1, 0, 1}
+	n := bigOf(arg)
+	n.Add(n, new(big.Int).Mul(two64, big.NewInt(int64(r.Intn(3)))))
+	n.Add(n, big.NewInt(int64(r.Intn(3)-1)))
+	if n.Sign() < 0 {
+		n.SetInt64(0)
+	}
+	return n.String()
+}
+
 func genScenario(r *vh.RNG, forks bool) *Scenario {
 	sc := &Scenario{Start: vh.Pick[uint64](r, 0, 0, 0, 2, 5), Depth: vh.Pick(r, 2, 3, 10)}
 	sc.Defs = []DefSpec{{A: 1, T: -1, Gte: -1}, {A: 1, T: 0, Gte: -1}, {A: 2, T: 1, Gte: 5}, {A: 2, T: -1, Gte: 3}}
+	// two predicates on full words: a static data word and the second topic of contract 3
+	for i := 0; i < 2; i++ {
+		sc.Defs = append(sc.Defs, DefSpec{A: 3, T: -1, Gte: -1, Preds: []PredSpec{{
+			Ref: vh.Pick(r, 4, 4, 1), Op: vh.Pick(r, "lt", "lte", "eq", "gt", "gte"), Arg: vh.Pick(r, bigArgs...)}}})
+	}
 	if r.Chance(1, 3) {
 		sc.Defs = append(sc.Defs, DefSpec{Bad: 1 + r.Intn(3)})
 	}
@@ -925,6 +1046,30 @@ func forcedScenarios() []*Scenario {
 	}
 	sc.Runs = []Run{{Range: 1, Ops: []Op{{Head: 3}, {Head: 4}, {Head: 5}, {Head: 7}}}, {Range: 10_000, Ops: []Op{{Head: 3}, {Head: 4}, {Head: 5}, {Head: 7}}}}
 	out = append(out, sc)
+	// unsigned predicates on full words (18-decimal token amounts): 20 tokens against thresholds of 2,
+	// 10 and 30 tokens, 2^64 and its neighbours, on a static data word and on the second topic
+	{
+		tok := func(n int64) string { return new(big.Int).Mul(big.NewInt(n), bigOf("1000000000000000000")).String() }
+		pd := func(ref int, op, arg string) DefSpec {
+			return DefSpec{A: 3, T: -1, Gte: -1, Preds: []PredSpec{{Ref: ref, Op: op, Arg: arg}}}
+		}
+		wdefs := []DefSpec{pd(4, "gt", tok(2)), pd(4, "gte", tok(10)), pd(4, "lt", tok(30)), pd(4, "lt", tok(2)), pd(4, "eq", "1553255926290448384"),
+			pd(1, "gte", "18446744073709551615"), pd(1, "lte", "5"), pd(4, "gt", "18446744073709551616"), pd(1, "eq", "18446744073709551617")}
+		sc := &Scenario{Start: 0, Depth: 10, Defs: wdefs, Note: "unsigned predicates on words above 2^64"}
+		var regs []syncrig.Item
+		for i := range wdefs {
+			regs = append(regs, reg(uint8(1+i), i, 100))
+		}
+		wl := func(w, t1 string) syncrig.Item { return syncrig.Item{Lg: &syncrig.Lg{A: 3, T: 0, W: w, T1: t1}} }
+		sc.Blocks = []syncrig.BlockSpec{
+			{Parent: 0, Items: regs},
+			{Parent: 1, Items: []syncrig.Item{wl(tok(20), "18446744073709551621")}}, // 20 tokens; topic 2^64 + 5
+			{Parent: 2, Items: []syncrig.Item{wl("18446744073709551616", "18446744073709551617")}},
+			{Parent: 3, Items: []syncrig.Item{wl("36893488147419103237", "4")}}, // 2*2^64 + 5
+		}
+		sc.Runs = []Run{{Range: 1, Ops: []Op{{Head: 1}, {Head: 2}, {Head: 3}, {Head: 4}}}, {Range: 1, Ops: []Op{{Head: 4}}}}
+		out = append(out, sc)
+	}
 	// forced reorganisations for C16_rollback_unfires: depths 1..3 below a fired trigger, the fork
 	// removes the log (un-fire), keeps it at another position, or re-registers the trigger itself
 	for depth := 1; depth <= 3; depth++ {
